@@ -467,7 +467,15 @@ impl BasicTypeColumn {
             EncodingType::Str => {
                 BasicTypeColumn::String(data.cast_ref_str().iter().map(|s| s.to_string()).collect())
             }
-            EncodingType::I64 => BasicTypeColumn::Int(data.cast_ref_i64().to_vec()),
+            EncodingType::I64 => {
+                // I64_NULL marks NULL (fused nulls of aggregates / order by); the row view reports it as Null
+                let values = data.cast_ref_i64();
+                if values.contains(&I64_NULL) {
+                    BasicTypeColumn::Mixed((0..data.len()).map(|i| data.get_raw(i)).collect())
+                } else {
+                    BasicTypeColumn::Int(values.to_vec())
+                }
+            }
             EncodingType::U8 | EncodingType::Bitvec => {
                 BasicTypeColumn::Int(data.cast_ref_u8().iter().map(|&i| i as i64).collect())
             }
@@ -484,7 +492,12 @@ impl BasicTypeColumn {
                 BasicTypeColumn::Int(data.cast_ref_usize().iter().map(|&i| i as i64).collect())
             }
             EncodingType::F64 => {
-                BasicTypeColumn::Float(data.cast_ref_f64().iter().map(|&f| f.0).collect())
+                let values = data.cast_ref_f64();
+                if values.iter().any(|f| f.to_bits() == F64_NULL.to_bits()) {
+                    BasicTypeColumn::Mixed((0..data.len()).map(|i| data.get_raw(i)).collect())
+                } else {
+                    BasicTypeColumn::Float(values.iter().map(|&f| f.0).collect())
+                }
             }
             EncodingType::Null => BasicTypeColumn::Null(data.len()),
 
